@@ -28,10 +28,22 @@ CONFIG = dict(
                "dispatcher queue, the invoked message, the message handed to EscalateFailure and the number of processMessages runs that exist (queued at the dispatcher + schedule() callers parked "
                "before dispatcher.Schedule + the consumer before its store-idle: counted by the harness from its own queue and parked goroutines, the quantity single_runner bounds) are compared "
                "with the model; the dispatcher's Throughput() is a per-case parameter (0,1,2,3,5,8 and the real 99; backlog cases queue >100 messages before the consumer moves) so that "
-               "the throughput branch is taken in every run, and 1/4 of the cases have panicking user/system handlers; whether the frame budget is exhausted at an iteration is decided by the harness from the VIRTUAL CLOCK "
-               "(now - start of the run > 10 ms), not copied from where the implementation went, so the model's choice pause / Gosched branch / carry on is an independent prediction; "
+               "the throughput branch is taken in every run, and 1/4 of the cases have panicking user/system handlers; whether the frame budget is exhausted at an iteration is decided by the MODEL: "
+               "the consumer's take / run.iter ops carry only what the virtual clock reads (now= ns since the case began) and the argument the case's mailbox was produced with (reset b=: "
+               "mailbox.Producer(0|1|2|3|5|10|20)); the timed model FineT computes cost = now - beginTime, the budget Producer(b) means (0 = 10 ms) and from them pause / Gosched branch / carry on — "
+               "an independent prediction of what the real producer.go + run() do; half of the cases run on a clock that advances between any two granted steps (tick 1 ns .. 300 us), handlers take 0/3/12/25 ms; "
+               "the yield point uq.empty (white-box shim around the user queue, overlay) parks the consumer between an EMPTY Pop of the user queue and run()'s return, so posters are "
+               "scheduled inside that window too (FineT's ret / retEmpty); "
                "the property predicate runs on the implementation's own trace (incl.: at most one run exists, what is escalated is the message just invoked, the case reaches quiescence "
                "within the controller's step limit). "
+               "The timed model FineT (Model/MailboxT.lean) = FineX + the clock, run()'s beginTime, the budget stored by Producer(ms) and the way out of run() after an empty user Pop: "
+               "every step is a FineX step or a stutter (t_step_refines, t_reachable_is_x_reachable), so the x_* theorems hold of it (t_single_runner, t_delivered_prefix, t_no_lost_wakeup, "
+               "t_quiescent_all_delivered; t_per_sender_order: for any predicate 'posted by sender k' the delivered messages of that sender are a prefix of its pushed ones); the budget is at least 1 ms "
+               "whatever is configured and 0 means 10 ms (producer_budget_pos, producer_budget_default, t_clock_inv); at run.iter exactly one of carry on / pause / Gosched is enabled, decided by "
+               "the clock (t_iter_decision_is_the_clocks); a run that begins a pause has lasted longer than its budget (t_pause_needs_elapsed); a run taken and continued while the clock stands still "
+               "never finds the budget exhausted (t_take_resets_cost, t_frozen_clock_never_over); and the for-all form of 'eventually processed' with the clock as the only assumption: from every "
+               "reachable state whose run is within budget EVERY schedule of existing threads during which no time passes has at most PhiT steps and cannot get stuck before everything is handed over "
+               "(t_frozen_clock_every_schedule_drains — 'no pause is begun' is derived from the clock, not assumed of the schedule). "
                "The system queue (mpsc.Queue, Vyukov) is also proved as a CONCURRENT object: Push split into its swap and its link, any number of producers, every "
                "interleaving — delivery is a prefix of the swap order (exactly once, global and per-producer FIFO), Pop answers nil only when nothing is pending or the "
                "oldest pending node's link is missing, quiescence makes everything visible, the pending links reveal everything; composed with the wake-up protocol "
@@ -54,11 +66,15 @@ CONFIG = dict(
                "run()'s plain read of userMessages is taken to return the current value; the >=100000-queued Gosched branch is modelled and covered by the x_* theorems but NOT reached by the "
                "correspondence run (it needs 100000 queued messages); nil messages are outside the model (ids are values): the code takes a popped nil for 'queue empty', never decrements the "
                "counter and re-schedules itself for ever (reproduced); several mailboxes on one scheDisp: the consumer's own re-schedule from the loop goroutine is not in the SchedDisp model "
-               "(a run is atomic there) — by the same count it is safe with at most 9 mailboxes; 'eventually' is proved for every schedule that does not declare the frame budget exhausted (x_every_schedule_drains) and as possibility in general (can_always_drain): the model "
-               "lets the budget be declared exhausted at any iteration, so an adversarial clock can pause for ever (cost is about 0 at the first iteration of a real run; that fact is not in the model); "
+               "(a run is atomic there) — by the same count it is safe with at most 9 mailboxes; 'eventually' is proved for every schedule that does not declare the frame budget exhausted (x_every_schedule_drains), for every schedule during which the clock stands still "
+               "(t_frozen_clock_every_schedule_drains; in FineT the budget decision is the clock's: cost is 0 when a run is taken, a pause needs more than the budget — at least 1 ms — of clock time) and as "
+               "possibility in general (can_always_drain); with a clock that advances arbitrarily between steps (tick d is unconstrained) a run can still be paused at its first iteration again and again: "
+               "that the real clock advances by less than the budget between the take and the first iteration is assumed, not modelled; a NEGATIVE Producer argument (int64) gives a negative budget, every "
+               "iteration pauses — outside the model (budgets are Nat) and outside the generator; "
                "goring.Pop's lock-free Empty() pre-check is proved sound against interleaved atomic pushes (ring_pop_precheck_sound) at the level of the ring model, not driven at that granularity; "
                "the dispatcher is the single-consumer scheDisp (one goroutine runs scheduled functions in turn). The Go scheduler itself is replaced by the controller.",
-    lean_targets=["Cell2v.Props.C09", "Cell2v.Props.C09X", "Cell2v.Props.C09Ring", "Cell2v.Props.C09Mpsc", "Cell2v.Props.C09Sched", "modeld_c09"],
+    go_flags=["-overlay=/verif/harness/c09/overlay/overlay.json"],
+    lean_targets=["Cell2v.Props.C09", "Cell2v.Props.C09X", "Cell2v.Props.C09T", "Cell2v.Props.C09Ring", "Cell2v.Props.C09Mpsc", "Cell2v.Props.C09Sched", "modeld_c09"],
     driver="modeld_c09",
     driver_root="Cell2v.Driver.C09",
     audit="Audit/C09.lean",
@@ -73,7 +89,10 @@ CONFIG = dict(
                        "x_reachable_inv", "x_base_step_is_fine_step", "x_single_runner", "x_delivered_prefix", "x_delivered_is_prefix_of_posted", "x_no_lost_wakeup",
                        "x_quiescent_all_delivered", "x_pause_has_helper", "x_panic_hands_over_and_returns", "x_escalated_were_delivered", "x_system_first_trace",
                        "x_throughput_counter_inert", "x_can_always_drain", "schedule_call_finds_queue_empty",
-                       "x_every_schedule_drains", "x_pending_work_has_progress_step", "ring_pushes_refine", "ring_pop_precheck_sound"],
+                       "x_every_schedule_drains", "x_pending_work_has_progress_step", "ring_pushes_refine", "ring_pop_precheck_sound",
+                       "t_step_refines", "t_reachable_is_x_reachable", "t_single_runner", "t_delivered_prefix", "t_no_lost_wakeup", "t_quiescent_all_delivered", "t_per_sender_order",
+                       "producer_budget_pos", "producer_budget_default", "t_clock_inv", "t_iter_decision_is_the_clocks", "t_pause_needs_elapsed", "t_take_resets_cost",
+                       "t_frozen_clock_never_over", "t_frozen_clock_every_schedule_drains"],
     # hook H2 (vy("mp.swap") / vy("mp.link") / vy("mp.pop") in actorex/queue/mpsc) is committed in /repo as 3b9fc55
     harness_pkg="./c09",
     mode="diff",
@@ -90,8 +109,9 @@ CONFIG = dict(
                      dict(name="seed2", env={"VERIF_N": "40000"}, seed_offset=7919, timeout=1500)],
     },
     trivial=r"^(ok|bad-op)?$",
-    rule="each case: 1-3 user posters (1-3 messages each, sometimes 12-21 to force ring growth, 1/6 slow handlers that exceed the 10 ms frame budget in "
-         "virtual time) and optionally a system poster (normal/suspend/resume), run to quiescence under a seeded schedule of atomic steps; one evaluation = "
+    rule="each case: a mailbox from mailbox.Producer(b), b in 0 (default) / 1 / 2 / 3 / 5 / 10 / 20 ms, a clock that advances by tick = 0 (half of the cases) / 1 ns / 1 us / 100 us / 300 us of "
+         "virtual time before every granted step; 1-3 user posters (1-3 messages each, sometimes 12-21 to force ring growth, 1/6 slow handlers of 3, 12 or 25 ms of "
+         "virtual time: within, at or past the frame budget depending on b and on what the run has used already) and optionally a system poster (normal/suspend/resume), run to quiescence under a seeded schedule of atomic steps; one evaluation = "
          "one granted atomic step of the real mailbox compared with the model; distinct = distinct (step, resulting shared state) pairs; non-trivial = every step. "
          "Run ring: the real goring.Queue / mpsc.Queue driven sequentially — capacities 1..12 x head rotation x every fill level (one pop there, push through a growth, "
          "PopMany below/at/above the length, drain, pop on empty) plus random cases with 1-4 growths (up to 192 slots), bursts to/just across the boundary, PopMany counts "
@@ -113,8 +133,11 @@ CONFIG = dict(
          "is already scheduled; a selfpost with no handler executing posts nothing)",
     trusted_base=[
         "Lean 4.33.0 kernel; axioms audited per theorem (propext, Classical.choice, Quot.sound)",
-        "hand-written models lean/Cell2v/Model/Mailbox.lean (Abs + Fine) and lean/Cell2v/Model/MailboxX.lean (FineX = Fine + throughput counter + panicking handlers + "
-        "MaxMsgNumToSmooth branch) tied to actorex/mailbox/mailbox.go by step-by-step replay (harness/c09 + modeld_c09 replays FineX)",
+        "hand-written models lean/Cell2v/Model/Mailbox.lean (Abs + Fine), lean/Cell2v/Model/MailboxX.lean (FineX = Fine + throughput counter + panicking handlers + "
+        "MaxMsgNumToSmooth branch) and lean/Cell2v/Model/MailboxT.lean (FineT = FineX + clock, beginTime, Producer's budget, the way out of run() after an empty user Pop) tied to "
+        "actorex/mailbox/{mailbox,producer}.go by step-by-step replay (harness/c09 + modeld_c09 replays FineT)",
+        "white-box shim harness/c09/overlay/userqueue_verif.go (mapped into package actorex/mailbox with `go test -overlay`, build tag verif; nothing under /repo is modified; add-only): "
+        "wraps the unexported user queue so that an EMPTY Pop yields at \"uq.empty\" before its answer reaches run()",
         "build-tag hook b43fb0c (vy yield points, VerifState) — add-only, empty when the tag is off",
         "build-tag hook H2 (harness/c09/overlay-mpsc/h2.patch: vy(\"mp.swap\"), vy(\"mp.link\"), vy(\"mp.pop\") in actorex/queue/mpsc, VerifYield) — add-only, empty when the tag is off; committed in /repo as 3b9fc55",
         "go1.26.8 testing/synctest for 'all goroutines parked' detection and virtual time",
